@@ -241,7 +241,8 @@ def model_line(world, res, rec, fuel=60):
         prods.append("%s:%s:%s:%s" % (enc(name), enc(v), enc(info["dir"]), "+".join(info["actions"])))
     rq = rec["request"]
     md = rq.get("max_depth")
-    cfg = "%s,%s,%s" % (enc(FLAVOR), enc(res["stack"]), "-" if md is None or md < 0 else str(md))
+    cfg = "%s,%s,%s,%s" % (enc(FLAVOR), enc(res["stack"]), "-" if md is None or md < 0 else str(md),
+                           "1" if rq.get("keep") else "0")
     ds = ",".join("!" if d is None else enc(d) for d in rec["decisions"])
     return "\t".join(["req", "|".join(prods), cfg, common.enc_env(rec["before"]), "", ds, enc(rq["name"]),
                       "1" if rq.get("fwd", True) else "0", "1" if rq.get("just") else "0", str(fuel)])
@@ -293,6 +294,14 @@ def path_elems(value):
     return out
 
 
+def uniq_list(l):
+    out = []
+    for x in l:
+        if x not in out:
+            out.append(x)
+    return out
+
+
 def gen_request(rng, world, allow_fail=0.1):
     names = sorted(world["products"])
     name = rng.choice(names)
@@ -303,3 +312,89 @@ def gen_request(rng, world, allow_fail=0.1):
     elif r < 0.35 + allow_fail:
         rq["version"] = "9.9"               # unknown version: the request fails
     return rq
+
+
+# ------------------------------------------------------------------ generic driver for C01 / C02 / C04
+
+def world_graph(res):
+    """name -> set of dependency names over ALL declared versions (from the real parser's actions)"""
+    g = {}
+    for key, info in res["parsed"].items():
+        name = key.split(" ")[0]
+        g.setdefault(name, set())
+        for a in info["actions"]:
+            if a.startswith("S,"):
+                g[name].add(common.dec(a.split(",")[2]))
+    return g
+
+
+def touched_names(res, name, just=False, max_depth=None):
+    g = world_graph(res)
+    budget = 0 if just else (None if max_depth is None or max_depth < 0 else max_depth)
+    seen = {name: 0}
+    todo = [name]
+    while todo:
+        n = todo.pop()
+        d = seen[n]
+        if budget is not None and d >= budget:
+            continue
+        for m in g.get(n, ()):
+            if m not in seen or seen[m] > d + 1:
+                seen[m] = d + 1
+                todo.append(m)
+    return set(seen)
+
+
+def product_dirs(res):
+    """(name, version) -> directory"""
+    return {tuple(k.split(" ")): v["dir"] for k, v in res["parsed"].items()}
+
+
+def own_contributions(res, name, version):
+    """path elements [(var, elem, delim)] and envSet values {var: value} of one product version"""
+    info = res["parsed"]["%s %s" % (name, version)]
+    paths, sets, aliases = [], {}, {}
+    for a in info["actions"]:
+        f = a.split(",")
+        if f[0] == "P":
+            paths.append((common.dec(f[2]), common.dec(f[3]), common.dec(f[4])))
+        elif f[0] == "E":
+            sets[common.dec(f[1])] = common.dec(f[2])
+        elif f[0] == "A":
+            aliases[common.dec(f[1])] = common.dec(f[2])
+    return paths, sets, aliases
+
+
+def run_scenarios(ctx, scenarios, oracle, nproc=14):
+    """scenarios: list of {"world", "requests", "env0"}; oracle(ctx, scenario, result) evaluates the property on
+    the real records; every request is also compared with the model"""
+    results = common.par_map(run_scenario, [(s["world"], s["requests"], s["env0"]) for s in scenarios], nproc=nproc)
+    lines, meta = [], []
+    for s, r in zip(scenarios, results):
+        if r[0] != "ok":
+            raise RuntimeError("scenario child failed: %r" % (str(r)[-1500:],))
+        r = r[1]
+        for rec in r["records"]:
+            lines.append(model_line(s["world"], r, rec))
+            meta.append((s, r, rec))
+    outs = ctx.model(lines, pid="C01")
+    for out, (s, r, rec) in zip(outs, meta):
+        compare(ctx, s["world"], r, rec, model_result(out))
+        ctx.traces_validated += 1
+    for s, r in zip(scenarios, results):
+        oracle(ctx, s, r[1])
+    return results
+
+
+def corpus(pid):
+    d = os.path.join(common.ROOT, "corpus", pid)
+    out = []
+    if os.path.isdir(d):
+        for f in sorted(os.listdir(d)):
+            if f.endswith(".json"):
+                out.append(json.load(open(os.path.join(d, f)))["input"])
+    return out
+
+
+def strip_stack(res, text):
+    return text.replace(res["stack"], "@STACK@") if isinstance(text, str) else text
